@@ -404,6 +404,24 @@ fn short_node(n: &RNode) -> String {
     }
 }
 
+/// up to 12 present leaves of a raw dump as (virtual address, physical address, size) for the in-callback watch
+fn watch_list(d: &Dump, st: &State, root: u64) -> Vec<(u64, u64, u64)> {
+    fn rec(k: &BTreeMap<u16, RNode>, level: u8, base: u64, out: &mut Vec<u64>) {
+        for (&i, n) in k.iter() {
+            let b = base | ((i as u64) << (12 + 9 * (level as u32 - 1)));
+            match n {
+                RNode::Leaf { .. } => out.push(b),
+                RNode::Table { kids, .. } => rec(kids, level - 1, b, out),
+                _ => {}
+            }
+        }
+    }
+    let mut vas = Vec::new();
+    rec(&d.kids, 4, 0, &mut vas);
+    let step = (vas.len() / 12).max(1);
+    vas.iter().step_by(step).take(12).filter_map(|&va| match hwwalk::walk(st, root, sx(va)) { Walk::Mapped { pa, size, .. } => Some((sx(va), pa, size)), _ => None }).collect()
+}
+
 /// a frame handed to the deallocator belongs to the allocator from that moment: what the deallocator left in it (here: a
 /// poison pattern) is still there when the call returns, unless the same call was given the frame again
 fn released_frames_untouched(env: &Env, op: &Op, rep: &mut Report) {
@@ -1087,6 +1105,7 @@ fn step_desynced(env: &mut Env, op: &Op, rep: &mut Report, r: &mut Rng, mon: &Mo
     let is_clean = matches!(op, Op::CleanUp | Op::CleanRange { .. });
     let pre_dump = hwwalk::dump_skip(&st, root, env.rec);
     let pre_leaves = leaf_entries_incl_parked(&st, root, env.rec);
+    st.watch = if is_clean && cfg!(vx_opt0) { watch_list(&pre_dump, &st, root) } else { Vec::new() };
     let pre_walk = match op {
         Op::Unmap { page, .. } => Some(hwwalk::walk(&st, root, *page)),
         _ => None,
@@ -1210,6 +1229,10 @@ fn step_synced(env: &mut Env, op: &Op, fail: Fail, rep: &mut Report, r: &mut Rng
     let skip = env.rec;
     let need_pre = is_clean || env.kind == Kind::Recursive;
     let pre_dump = if need_pre { Some(hwwalk::dump_skip(&st, root, skip)) } else { None };
+    st.watch = match (&pre_dump, is_clean && cfg!(vx_opt0)) {
+        (Some(d), true) => watch_list(d, &st, root),
+        _ => Vec::new(),
+    };
     env.last_pf.borrow_mut().clear();
     // natural exhaustion of the pool also fails a request
     let eff_fail = match fail.at {
